@@ -66,6 +66,26 @@ Definition getitem (s : spec) (ty : nat) (sat : nat -> bool) : outcome :=
 Definition getitem_v0 (s : spec) (ty : nat) (sat : nat -> bool) : outcome :=
   scan_v0 sat (entries s ty) None false.
 
+(* ---- vocabulary of the GENERATED model (Gen/CostSpecGen.v, written by translator/costspec2coq.py from the source of
+        CostSpec.__setitem__ / __getitem__ on every run): an insertion-ordered dict  layer type -> list of entries,
+        a result type for `raise`, and a fold that stops at the first raise *)
+Definition dict_mem (ty : nat) (s : spec) : bool := existsb (fun p => Nat.eqb ty (fst p)) s.
+Definition dict_get (s : spec) (ty : nat) : list entry := entries s ty.
+Fixpoint dict_set (s : spec) (ty : nat) (v : list entry) : spec :=
+  match s with
+  | [] => [(ty, v)]
+  | (ty', es) :: t => if Nat.eqb ty ty' then (ty', v) :: t else (ty', es) :: dict_set t ty v
+  end.
+Inductive res (S : Type) := Ok (s : S) | Raise.
+Fixpoint fold_res {S A : Type} (step : S -> A -> res S) (l : list A) (s : S) : res S :=
+  match l with
+  | [] => Ok S s
+  | a :: t => match step s a with Ok _ s' => fold_res step t s' | Raise _ => Raise S end
+  end.
+Definition is_none {A : Type} (x : option A) : bool := match x with None => true | Some _ => false end.
+Definition sat_opt (sat : nat -> bool) (c : option nat) : bool := match c with Some k => sat k | None => false end.   (* constr(spec) *)
+Definition ret (best_match : option F) : outcome := match best_match with Some f => Found f | None => Default end.
+
 Definition register_all (regs : list (nat * entry)) : spec :=
   fold_left (fun s r => setitem s (fst r) (snd r)) regs [].
 
@@ -89,6 +109,8 @@ End CostSpec.
 Arguments Found {F} f.
 Arguments Default {F}.
 Arguments Conflict {F}.
+Arguments Ok {S} s.
+Arguments Raise {S}.
 
 (* ---- helpers for the correspondence run: satisfaction sets as lists, outcomes as Z *)
 Definition sat_of (l : list nat) (k : nat) : bool := existsb (Nat.eqb k) l.
